@@ -41,6 +41,8 @@ def source_kind(n):
         return 'variable(name)'
     if fn == 'component' and n.get('mc') and len(c) >= 2 and 'basic_string' in (c[1].get('t', '') + c[1].get('rt', '')):
         return 'component(name)'
+    if fn == 'units' and n.get('mc') and n.get('cls', '').endswith('Variable') and len(c) == 1:
+        return 'variable.units'
     if fn == 'parent' and n.get('mc') and n.get('cls', '').endswith('ParentedEntity'):
         return 'parent'
     if fn == 'parent' and n.get('mc') and n.get('cls', '').endswith('AnalyserEquationAst'):
